@@ -56,6 +56,19 @@ def name_items():
         items.append({"id": "name%d" % j, "module": m,
                       "script": [{"op": "instantiate", "binds": {"mem": 0, "table": 0, "globals": []}},
                                  {"op": "call", "inst": 1, "export": "plainexport", "args": []}]})
+    # bytes that must be written as escapes, directly followed by characters that could be taken for a continuation of the
+    # escape (hexadecimal and octal digits), in export names and in the names of a global import (both end up in C string literals)
+    def raw(bs):
+        return {"bytes": list(bs)}
+    hard = [b"gr\xc3\xb6\xc3\x9fe", b"\xcf\x802", b"\x7fA", b"\x01f0", b"\x1b[0m", b"a\xffb\xfec", b"\x079", b"q\x00z" if False else b"\x0377", b"\xe2\x82\xacd", b"??=\x80a"]
+    for j, nm in enumerate(hard):
+        m = {"types": [{"p": [], "r": ["i32"]}],
+             "imports": [{"mod": "m%d" % j, "name": "n%d" % j, "wire_mod": list(nm), "wire_name": list(nm[::-1]), "kind": "global", "t": "i32", "mut": False}],
+             "funcs": [{"type": 0, "locals": [], "body": [["global.get", 0], ["i32.const", b32(1)], ["i32.add"], ["end"]]}],
+             "exports": [{"name": "hard%d" % j, "wire_name": list(nm), "kind": "func", "idx": 0}, {"name": "plainexport", "kind": "func", "idx": 0}]}
+        items.append({"id": "bname%d" % j, "module": m,
+                      "script": [{"op": "hostglobal", "t": "i32", "b": b32(41 + j)}, {"op": "instantiate", "binds": {"mem": 0, "table": 0, "globals": [1]}},
+                                 {"op": "call", "inst": 1, "export": "plainexport", "args": []}]})
     return items
 
 
@@ -93,7 +106,8 @@ def main():
     st, exp = machine.replay(v, items, cells, sigfn=sig, tlc_timeout=3000)
     # names: compile-cleanliness only needs one cell per compiler
     v2 = v
-    stn, _ = machine.replay(v2, names, [c for c in cells if c["name"] in ("gcc-O1", "clang-O1", "gcc-O0-std=gnu89-san", "clang-O0")][:2] or cells[:2],
+    ncells = ([c for c in cells if c["cc"] == "gcc"][:1] + [c for c in cells if c["cc"] == "clang"][:1]) or cells[:2]
+    stn, _ = machine.replay(v2, names, ncells,
                             sigfn=lambda it, k, why, b, e, a: "names:" + it["id"])
     cov = {"evaluations": st["ops_compared"] + stn["ops_compared"], "distinct_nontrivial": st["distinct_nontrivial"],
            "rule": "behaviours of the C01-C07 generators (integer and float operand grids, memory histories, directed control "
